@@ -128,6 +128,32 @@ theorem valid_cholKey_false {v : Val} (h : validFor m (cholKey P false) v) : v =
   · cases v <;> simp [validFor, cholKey, hb, Key.name] at h
     case chol u a => simp [h.1, h.2]
 
+theorem valid_cholKey {u : Bool} {v : Val} (h : validFor m (cholKey P u) v) :
+    v = Val.chol (if P.cholBare then false else u) m := by
+  by_cases hb : P.cholBare = true
+  · cases v <;> simp [validFor, cholKey, hb, Key.name] at h
+    case chol u' a => simp [h.1, h.2, hb]
+  · cases v <;> simp [validFor, cholKey, hb, Key.name] at h
+    case chol u' a => simp [h.1, h.2, hb]
+
+theorem cholHook_ok (u : Bool) (s : St) (hs : Inv m s.cache) :
+    Inv m (cholHook P m u s).1.cache ∧ (cholHook P m u s).2 = Val.chol u m := by
+  have hg : Good m (cholKey P u)
+      (fun s => (if P.cholLogs then s.log ["chol"] else s, Val.chol (if P.cholBare then false else u) m)) := by
+    intro s hs
+    refine ⟨by split <;> simpa using hs, ?_⟩
+    by_cases hb : P.cholBare = true
+    · simpa [hb] using cholKey_valid P m false (fun _ => rfl) |> fun h => by simpa [cholKey, hb] using h
+    · simpa [hb] using cholKey_valid P m u (fun h => absurd h hb)
+  have h := good_cached hg s hs
+  have hv := valid_cholKey P m h.2
+  have e : cholHook P m u s = ((cachedCall (cholKey P u)
+      (fun s => (if P.cholLogs then s.log ["chol"] else s, Val.chol (if P.cholBare then false else u) m)) s).1, Val.chol u m) := by
+    simp only [cholHook, hv]
+    by_cases hb : P.cholBare = true <;> simp [hb]
+  rw [e]
+  exact ⟨h.1, rfl⟩
+
 theorem cholesky_ok (u : Bool) (s : St) (hs : Inv m s.cache) :
     Inv m (cholesky P m u s).1.cache ∧ (cholesky P m u s).2 = Val.chol u m := by
   have h := good_cholLower P m s hs
@@ -151,7 +177,9 @@ theorem valid_denseKey {v : Val} (h : validFor m denseKey v) : v = Val.dense m :
 
 theorem symeigRun_ok (s : St) (hs : Inv m s.cache) : Inv m (symeigRun P m s).cache := by
   unfold symeigRun
-  simpa using (toDense_ok P m s hs).1
+  split
+  · simpa using (toDense_ok P m s hs).1
+  · exact hs
 
 theorem good_diagz (c : Call) : Good m (diagzKey c) (diagonalization P σ n m c) := by
   unfold diagonalization
@@ -209,7 +237,10 @@ theorem good_rootCompute (c : Call) : Good m (rootKey c) (rootCompute P σ n m c
 
 theorem good_root (c : Call) : Good m (rootKey c) (rootDecomp P σ n m c) := by
   unfold rootDecomp
-  exact good_cached (good_rootCompute P σ n m c)
+  intro s hs
+  split
+  · exact good_cached (good_rootCompute P σ n m c) s hs
+  · exact ⟨hs, rootKey_valid m c _ true⟩
 
 /-- What `validFor` says about an entry stored under a `root_decomposition` key. -/
 theorem valid_rootKey {c : Call} {v : Val} (h : validFor m (rootKey c) v) :
@@ -246,7 +277,10 @@ theorem good_rootInvCompute (c : Call) : Good m (rootInvKey c) (rootInvCompute P
 
 theorem good_rootInv (c : Call) : Good m (rootInvKey c) (rootInvDecomp P σ n m c) := by
   unfold rootInvDecomp
-  exact good_cached (good_rootInvCompute P σ n m c)
+  intro s hs
+  split
+  · exact good_cached (good_rootInvCompute P σ n m c) s hs
+  · exact ⟨hs, rootInvKey_valid m c _⟩
 
 /-- Nothing valid can ever sit under the `symeig` key: the library never writes it. -/
 theorem symeig_absent (c : Cache) (hc : Inv m c) : c.get symeigKey = none := by
